@@ -1,0 +1,93 @@
+//go:build verif
+
+package object
+
+import (
+	"context"
+	"reflect"
+)
+
+// Hook kinds passed to VerifPoint.
+const (
+	VerifChanSend   = 1 // obj = *Chan; before the send select
+	VerifChanRecv   = 2 // obj = *Chan; before the receive select
+	VerifChanClose  = 3 // obj = *Chan; before close
+	VerifThreadWait = 4 // obj = (<-chan bool) the thread's done channel; before the wait select
+)
+
+// Phases passed to VerifGo.
+const (
+	VerifGoAnnounce = 0 // in the parent, before the go statement
+	VerifGoStart    = 1 // first thing in the new goroutine
+	VerifGoEnd      = 2 // last thing in the new goroutine (deferred)
+	VerifGoSpawned  = 3 // in the parent, after the go statement
+)
+
+// Phases passed to VerifLock.
+const (
+	VerifLockAcquire  = 0 // before Lock
+	VerifLockRelease  = 1 // after Unlock
+	VerifRLockAcquire = 2 // before RLock
+	VerifRLockRelease = 3 // after RUnlock
+)
+
+// The harness sets these once, before any evaluation runs. Nil means "no
+// harness attached": the hook returns at once.
+var (
+	VerifGo     func(phase int)
+	VerifPoint  func(kind int, obj any, ctx context.Context)
+	VerifAccess func(obj any, field string, write bool)
+	VerifLock   func(mu any, phase int)
+)
+
+func verifGo(phase int) {
+	if VerifGo != nil {
+		VerifGo(phase)
+	}
+}
+
+func verifPoint(kind int, obj any, ctx context.Context) {
+	if VerifPoint != nil {
+		VerifPoint(kind, obj, ctx)
+	}
+}
+
+func verifAccess(obj any, field string, write bool) {
+	if VerifAccess != nil {
+		VerifAccess(obj, field, write)
+	}
+}
+
+func verifLock(mu any, phase int) {
+	if VerifLock != nil {
+		VerifLock(mu, phase)
+	}
+}
+
+// VerifChanState reports the buffer occupancy of a channel (for the
+// scheduler's enabledness computation; only meaningful while all tasks are parked).
+func VerifChanState(c *Chan) (length, capacity int) { return len(c.value), c.capacity }
+
+// VerifTypeCacheMutex returns the mutex guarding the type registries.
+func VerifTypeCacheMutex() any { return goTypeMutex }
+
+var verifInitialTypeConverters map[reflect.Type]TypeConverter
+
+func init() {
+	verifInitialTypeConverters = make(map[reflect.Type]TypeConverter, len(typeConverters))
+	for k, v := range typeConverters {
+		verifInitialTypeConverters[k] = v
+	}
+}
+
+// VerifResetTypeCaches restores the package-level Go type registries to their
+// initial contents, so that every explored execution starts from "first use".
+func VerifResetTypeCaches() {
+	goTypeMutex.Lock()
+	defer goTypeMutex.Unlock()
+	typeConverters = make(map[reflect.Type]TypeConverter, len(verifInitialTypeConverters))
+	for k, v := range verifInitialTypeConverters {
+		typeConverters[k] = v
+	}
+	goTypeRegistry = map[reflect.Type]*GoType{}
+}
